@@ -52,7 +52,16 @@ Epoch::GetProtectedEpoch() const  //
 void
 Epoch::EnterEpoch()
 {
-  entered_.store(GetCurrentEpoch(), kRelaxed);
+  // publish the epoch and then make sure that it is still the current one; otherwise, the
+  // global epoch may have been forwarded past it without this protection being seen
+  auto epoch = GetCurrentEpoch();
+  while (true) {
+    entered_.store(epoch, kRelaxed);
+    std::atomic_thread_fence(std::memory_order_seq_cst);
+    const auto cur = GetCurrentEpoch();
+    if (cur == epoch) return;
+    epoch = cur;
+  }
 }
 
 void
